@@ -139,6 +139,7 @@ type profile struct {
 	nullVal    bool
 	control    bool // control characters in strings
 	longFloats bool // floats with 18 or more fraction digits (the parser keeps them as text)
+	noHuge     bool // no numbers beyond the float64 range (read as infinity)
 	smallInts  bool // integers below 10^12 only (nano time format: large integers are read as times)
 	maxWidth   int
 }
@@ -321,6 +322,9 @@ func randScalar(r *rand.Rand, p *profile) *Node {
 		case x < 21:
 			if p.big {
 				if r.IntN(4) == 0 {
+					if p.noHuge {
+						return nBig(fw.Pick(r, bigDecimals[:4]))
+					}
 					return nBig(fw.Pick(r, bigDecimals))
 				}
 				return nBig(fw.Pick(r, bigInts))
@@ -621,7 +625,8 @@ func randGoVal(r *rand.Rand, p *goProfile, depth int) *GoVal {
 var pathDocKeys = []string{"a", "b", "c", "d", "list", "name", "x1", "k k", "a.b", "é", "12", "key-with-dash"}
 
 func randPathDoc(r *rand.Rand, depth int, rich bool) *Node {
-	p := &profile{maxDepth: depth, nullVal: true, falseVal: true, emptyC: true, integralF: false, maxWidth: 4}
+	p := &profile{maxDepth: depth, nullVal: true, falseVal: true, emptyC: true, integralF: false, maxWidth: 4,
+		big: true, longFloats: true, minInt: true, noHuge: true}
 	var build func(d int) *Node
 	build = func(d int) *Node {
 		if d <= 0 || r.IntN(10) < 3 {
@@ -708,11 +713,11 @@ func randPath(r *rand.Rand, doc *Node, dirty bool) Path {
 		tail := append(Path{}, p[cut-1:]...)
 		p = append(Path{fDescent()}, tail...)
 	case x < 15:
-		// extend with a missing member chain. Avoided unless dirty (finding
-		// "no-effect"): a member name applied to an array / an index applied
-		// to an object, which set ignores silently.
+		// extend with a missing member chain
 		switch {
-		case dirty && r.IntN(2) == 0:
+		case r.IntN(4) == 0:
+			// whatever the node is (a member name on an array and an index on an
+			// object are errors)
 			if r.IntN(2) == 0 {
 				p = append(p, fNth(r.IntN(3)))
 			} else {
@@ -731,9 +736,9 @@ func randPath(r *rand.Rand, doc *Node, dirty bool) Path {
 			}
 		}
 	case x < 16 && 0 < len(p):
-		// out of range or (dirty) wrong-type last fragment
+		// out of range or wrong-type last fragment
 		switch {
-		case dirty && r.IntN(2) == 0:
+		case r.IntN(4) == 0:
 			if parent.K == kArr {
 				p[len(p)-1] = fChild("nokey")
 			} else {
@@ -786,12 +791,12 @@ func finishOp(r *rand.Rand, op *Op) {
 
 func hasEmptyOrSpecial(n *Node) bool {
 	return n.has(func(x *Node) bool {
-		return (x.isContainer() && len(x.A) == 0) || x.K == kBig
+		return x.isContainer() && len(x.A) == 0
 	})
 }
 
 func randSetValue(r *rand.Rand, scalarOnly bool, rich bool) (*Node, string) {
-	p := &profile{nullVal: true, falseVal: true, emptyC: true, times: rich, maxWidth: 3}
+	p := &profile{nullVal: true, falseVal: true, emptyC: true, times: rich, maxWidth: 3, big: rich, longFloats: rich, minInt: rich, noHuge: true}
 	var v *Node
 	if scalarOnly || r.IntN(3) != 0 {
 		v = randScalar(r, p)
@@ -813,11 +818,11 @@ func randSetValue(r *rand.Rand, scalarOnly bool, rich bool) (*Node, string) {
 	return v, mode
 }
 
-// avoidSharedSet: while the finding "multi-location-container-set" is open the
-// clean stream does not store container values through wildcard paths and a
-// history ends after such a step (outside the probe block). Set to false once
-// bag-set gives every match a value of its own.
-const avoidSharedSet = true
+// avoidSharedSet: true would keep container values away from wildcard paths
+// in the clean stream and end a history after such a step (the treatment of
+// the finding "multi-location-container-set" while it was open; repaired by
+// 6c89c9a, bag-set now gives every match a value of its own).
+const avoidSharedSet = false
 
 func randHistory(r *rand.Rand, doc *Node, n int, rich bool, dirty bool) []Op {
 	ops := make([]Op, 0, n)
@@ -1221,9 +1226,10 @@ func genText(r *rand.Rand, depth int, i int) Case {
 
 func genNative(r *rand.Rand, depth int, i int) Case {
 	dirty := (i/10)%8 == 0
-	p := &profile{nullVal: true, oddKeys: true, control: true, integralF: true, minInt: false, times: true, maxWidth: 5}
+	p := &profile{nullVal: true, oddKeys: true, control: true, integralF: true, times: true, maxWidth: 5,
+		big: true, longFloats: true, minInt: true, noHuge: true}
 	if dirty {
-		p.falseVal, p.emptyC, p.big, p.longFloats, p.minInt = true, true, true, true, true
+		p.falseVal, p.emptyC, p.noHuge = true, true, false
 	}
 	doc := randDoc(r, p, 1+r.IntN(depth))
 	c := Case{Kind: "native", Doc: doc, Via: fw.Pick(r, nativeVias)}
